@@ -1453,7 +1453,8 @@ class ParseHeader(Contract):
     @property
     def loops(self):
         T = lambda I, env, k: []
-        return {0: LoopSpec(inv=T, havoc=lambda I, env, k: None, on_head=self.head0, step=self.step0, target_after='unknown'),
+        # `variant_ids` (the list returned) only collects the identifiers whose construction step0 checks: its content is not used
+        return {0: LoopSpec(inv=T, havoc=lambda I, env, k: None, on_head=self.head0, step=self.step0, target_after='unknown', keep=('variant_ids',)),
                 1: LoopSpec(inv=self.inv1, on_init=self.init1, havoc=self.havoc1, target_after='unknown')}
 
     def head0(self, I, env, k):
